@@ -596,6 +596,7 @@ def cases(draw, p):
     rnd.start()
     for o in abstract:
         rnd.op(o)
-    return {"config": cfg, "regions": regions, "prog": rnd.prog,
+    via = draw(st.sampled_from(["direct", "direct", "plugin"])) if p.get("via_plugin", True) else "direct"
+    return {"config": cfg, "regions": regions, "prog": rnd.prog, "via": via,
             "meta": {"rewrites": rnd.rewrites, "fw": fw, "delta": delta, "exact": exact,
                      "excluded_known": rnd.excluded_known}}
